@@ -380,9 +380,11 @@ func (vx *Vaxis) PostEvent(ev Event) {
 	log.Debug("[event] %#v", ev)
 	select {
 	case vx.queue <- ev:
+		verifC10(vx, "post.sent")
 		return
 	default:
 		log.Warn("Event dropped: %T", ev)
+		verifC10(vx, "post.dropped")
 	}
 }
 
@@ -391,6 +393,7 @@ func (vx *Vaxis) PostEvent(ev Event) {
 // goroutine than the main thread.
 func (vx *Vaxis) PostEventBlocking(ev Event) {
 	vx.queue <- ev
+	verifC10(vx, "postb.sent")
 }
 
 // SyncFunc queues a function to be called from the main thread. vaxis will call
@@ -421,16 +424,21 @@ func (vx *Vaxis) Close() {
 	// Close may be called concurrently (the application, the kill-signal
 	// handler and the panic handler of the input goroutine all call it):
 	// exactly one caller shuts down, the others return
+	verifC10(vx, "close.enter")
 	vx.closeMu.Lock()
 	if vx.closed {
 		vx.closeMu.Unlock()
+		verifC10(vx, "close.already")
 		return
 	}
 	vx.closed = true
 	vx.closeMu.Unlock()
+	verifC10(vx, "close.won")
 	vx.PostEvent(QuitEvent{})
+	verifC10(vx, "close.posted")
 
 	defer close(vx.chQuit)
+	defer verifC10(vx, "close.quit")
 
 	vx.Suspend()
 	vx.console.Close()
@@ -1403,12 +1411,17 @@ func (vx *Vaxis) Suspend() error {
 	if vx.suspended {
 		// Already suspended (e.g. Close while suspended): the parser is
 		// stopped and the terminal restored, nothing to wait for
+		verifC10(vx, "suspend.already")
 		return nil
 	}
 	vx.suspended = true
+	verifC10(vx, "suspend.flagged")
 	vx.parser.Close()
+	verifC10(vx, "suspend.signalled")
 	io.WriteString(vx.console, primaryAttributes)
+	verifC10(vx, "suspend.da1")
 	vx.parser.WaitClose()
+	verifC10(vx, "suspend.closed")
 
 	vx.disableModes()
 	vx.exitAltScreen()
@@ -1468,10 +1481,13 @@ func (vx *Vaxis) openTty(tgts []*os.File) error {
 			case seq := <-parser.Next():
 				switch seq := seq.(type) {
 				case ansi.EOF:
+					verifC10(vx, "input.eof")
 					return
 				default:
+					verifC10(vx, "input.seq")
 					vx.handleSequence(seq)
 					parser.Finish(seq)
+					verifC10(vx, "input.handled")
 				}
 			case <-vx.chSigWinSz:
 				atomicStore(&vx.resize, true)
